@@ -207,7 +207,7 @@ def c05_pipeline(ch, build):
 STATELESS = [{"name": "getdeviceid"}, {"name": "getchassisstatus"}, {"name": "getsystemguid"}, {"name": "authcaps", "p": [1, 14, 4]},
              {"name": "ciphersuites", "p": [14, 0, 0]}, {"name": "getsdrrepoinfo"}, {"name": "powerreading", "p": [1, 0]},
              {"name": "dcmicaps", "p": [1]}, {"name": "sensorreading", "p": [1, 0]}, {"name": "getsdr", "p": [0, 0, 0, 5]},
-             {"name": "dcmisensorinfo", "p": [1, 65, 0, 1]}, {"name": "sessioninfo", "p": [0, 0, 0]}]
+             {"name": "dcmisensorinfo", "p": [1, 65, 0, 1]}]
 
 
 def c17_connection(ch, build):
@@ -224,7 +224,8 @@ def c17_connection(ch, build):
         for k, (a, b) in enumerate(pairs):
             su = hist.SUITES[k % 9]
             cn = "session" if session else "sessionless"
-            sa = rng.choice([["ok"], ["ok"], ["garbage", "ok"], ["busy", "ok"], ["truncbody"], ["cc:201"]])
+            sa = rng.choice([["ok"], ["ok"], ["garbage", "ok"], ["busy", "ok"], ["truncbody"], ["cc:201"]] +
+                            ([["setbytes:6=17;7=34;10=9"]] * 3 if not session else []))
             pre = [hs.open_step(suites=[su])] if session else []
             both = {"bmc": default_bmc(seed=300 + k, suites=[[100, su[0], su[1], su[2]]], loose=True), "timeout_ms": 40,
                     "steps": pre + [{"op": "cmd", "conn": cn, "cmd": a, "script": sa}, {"op": "cmd", "conn": cn, "cmd": b, "script": ["ok"]}]}
